@@ -77,10 +77,11 @@ type WriteRec struct {
 
 // End is one end of an in-memory duplex connection.
 type End struct {
-	Name   string
-	peer   *End
-	local  net.Addr
-	remote net.Addr
+	EOFWithLastData bool // the Read that drains the inbox after the peer closed its side returns the data together with io.EOF
+	Name            string
+	peer            *End
+	local           net.Addr
+	remote          net.Addr
 
 	mu                  sync.Mutex
 	inbox               [][]byte      // segments waiting to be Read by this end
@@ -141,6 +142,10 @@ func (e *End) Read(b []byte) (int, error) {
 				e.inbox[0] = e.inbox[0][n:]
 			} else {
 				e.inbox = e.inbox[1:] // a datagram socket hands out one datagram per read; what does not fit the buffer is lost
+			}
+			if e.EOFWithLastData && len(e.inbox) == 0 && e.eof {
+				e.mu.Unlock()
+				return n, io.EOF // as a quic-go stream does when the FIN is already known: the last octets and io.EOF in one Read
 			}
 			e.mu.Unlock()
 			return n, nil
